@@ -38,7 +38,8 @@ class AlgoCrash(Exception):
 
 
 def partitions_of(algo):
-    """Every partition object currently owned by `algo` (own tree, learners' trees)."""
+    """Every partition object currently owned by `algo` (own tree, learners' trees).
+    Learners are looked up where the wrappers keep them (curr_algo, V_algo, algorithm)."""
     from PyXAB.partition.Partition import Partition
 
     out = []
@@ -48,13 +49,18 @@ def partitions_of(algo):
         if id(a) in seen or depth > 3:
             return
         seen.add(id(a))
-        for k, v in list(a.__dict__.items()):
-            if isinstance(v, Partition):
-                out.append(v)
-            elif hasattr(v, "pull") and hasattr(v, "receive_reward") and not isinstance(v, type):
+        d = a.__dict__
+        p = d.get("partition")
+        if isinstance(p, Partition):
+            out.append(p)
+        for k in ("curr_algo", "algorithm"):
+            v = d.get(k)
+            if v is not None and hasattr(v, "pull") and not isinstance(v, type):
                 visit(v, depth + 1)
-            elif isinstance(v, list) and v and hasattr(v[0], "pull") and not isinstance(v[0], type):
-                for x in v:
+        va = d.get("V_algo")
+        if va:
+            for x in va:
+                if hasattr(x, "pull"):
                     visit(x, depth + 1)
 
     visit(algo)
@@ -78,6 +84,7 @@ class Ctx:
         self.points = []
         self.rewards = []
         self.calls_mark = 0  # index into rec.calls at the beginning of the current round
+        self.is_wrapper = cfg.get("algo") in ("POO", "GPO", "PCT", "VPCT")
         self.extra = {"stats": Stats()}
 
     @property
@@ -87,7 +94,10 @@ class Ctx:
     def round_calls(self):
         return self.rec.calls[self.calls_mark:]
 
-    def attach_all(self):
+    def attach_all(self, force=False):
+        # the set of partitions only changes for the wrappers (learners are created in pull)
+        if not force and not self.is_wrapper:
+            return
         for p in partitions_of(self.algo):
             self.rec.attach(p)
 
@@ -160,6 +170,11 @@ def execute(cfg, script, expect, changed_pos, T, reward_fn, oracles, learner_cla
     sm.choice_log.clear()
     ctx = Ctx(cfg, src, changed_pos)
     ctx.seam = sm
+    ctx.rec.activate()
+    if learner_classes:
+        from . import ledger
+
+        ctx.learner_log = ledger.reset_log()
     try:
         ctx.algo, ctx.domain = configs.build(cfg, learner_classes)
     except (Violation, HarnessError):
@@ -168,7 +183,7 @@ def execute(cfg, script, expect, changed_pos, T, reward_fn, oracles, learner_cla
         raise AlgoCrash("constructor", e, traceback.format_exc())
     if construct_hook:
         construct_hook(ctx)
-    ctx.attach_all()
+    ctx.attach_all(force=True)
     for o in oracles:
         o.begin(ctx)
     for t in range(1, T + 1):
@@ -199,7 +214,6 @@ def execute(cfg, script, expect, changed_pos, T, reward_fn, oracles, learner_cla
         except Exception as e:  # noqa
             ctx.src_points = src.points
             raise AlgoCrash("receive_reward", e, traceback.format_exc())
-        ctx.attach_all()
         for o in oracles:
             o.after_round(ctx)
     for o in oracles:
